@@ -182,8 +182,65 @@ theorem implShape_des_mem {m : Circ} {sh : Shape} (wf : WFc0 m) (h : implShape m
           obtain ⟨d, hd1, hd2, _⟩ := wf.ldrv l0 hlm
           simp only [hd1, Option.map_eq_some_iff] at hd0
           obtain ⟨x, hx, hxe⟩ := hd0
-          cases hxe
-          exact walkDes_mem wf _ d dn hd2 hx
+          split at hxe
+          · cases hxe
+          · cases hxe
+            exact walkDes_mem wf _ d dn hd2 hx
+
+/-- since the repair of D32 (a walk that ends at a port yields no designated cell): when no port of the implementation is a
+flip-flop/latch the designated cell is not a port — the clause `desNotPort` of `implStatic` holds by itself -/
+theorem implShape_des_notPort {m : Circ} {sh : Shape} (h : implShape m = some sh) {dn : Nat} (hd : sh.des = some dn)
+    (hps : ∀ p ∈ m.io, isSeqKind (m.nobj p).kind = false) : inIos m dn = false := by
+  unfold implShape at h
+  simp only at h
+  split at h
+  · cases h
+  · split at h
+    · cases h
+    · rename_i d0 hd0
+      cases h
+      simp only at hd
+      split at hd
+      · -- a state element: a port equal to it (`Node.__eq__`) would be a state element
+        have hseq := List.find?_some hd
+        cases hio : inIos m dn with
+        | false => rfl
+        | true =>
+          exfalso
+          unfold inIos at hio
+          rw [List.any_eq_true] at hio
+          obtain ⟨p, hp, hsame⟩ := hio
+          simp only [sameNode, Bool.and_eq_true, beq_iff_eq] at hsame
+          have := hps p hp
+          rw [hsame.2, hseq] at this
+          exact absurd this (by simp)
+      · subst hd
+        split at hd0
+        · cases hd0
+        · split at hd0
+          · cases hd0
+          · simp only [Option.map_eq_some_iff] at hd0
+            obtain ⟨x, _, hxe⟩ := hd0
+            split at hxe
+            · cases hxe
+            · rename_i hn
+              cases hxe
+              simpa using hn
+
+theorem desNotPort_of_portsNotSeq {m : Circ} (hps : (m.io.all fun p => !(isSeqKind (m.nobj p).kind)) = true) :
+    desNotPort m = true := by
+  unfold desNotPort
+  cases hs : implShape m with
+  | none => rfl
+  | some sh =>
+    cases hd : sh.des with
+    | none => simp only [hd]
+    | some dn =>
+      simp only [hd, Bool.not_eq_true']
+      apply implShape_des_notPort hs hd
+      intro p hp
+      have := List.all_eq_true.mp hps p hp
+      simpa using this
 
 /-! ## the loop over the implementation nodes builds an injective `node_map` onto fresh nodes with empty pin lists -/
 theorem addImplNode_cases {m : Circ} {hostName : String} {des : Option Nat} {st st' : Circ × NMap} {n : Nat}
